@@ -245,8 +245,16 @@ def oracle_extreme(case, ctx):
 LARGE = {'quick': [(9, 9), (11, 11), (13, 13), (15, 15)], 'thorough': [(9, 9), (11, 11), (13, 13), (15, 15), (17, 17), (7, 31), (31, 7), (21, 21), (15, 31)]}
 
 
+# views of more than 1000 cells: an interior-only wall block first, the empty view second (in the same process)
+HISTORY = {'quick': [(33, 33), (25, 41)], 'thorough': [(33, 33), (25, 41), (41, 25), (36, 36)]}
+
+
 def enum_large(tier, shard, nshards):
     i = 0
+    for (h, w) in HISTORY[tier]:
+        i += 1
+        if i % nshards == shard:
+            yield {'h': h, 'w': w, 'k': 'interior_then_empty'}
     for (h, w) in LARGE[tier]:
         for k in range(4 if tier == 'quick' else 8):
             i += 1
@@ -256,6 +264,25 @@ def enum_large(tier, shard, nshards):
 
 def oracle_large(case, ctx):
     h, w, k = case['h'], case['w'], case['k']
+    if k == 'interior_then_empty':
+        pos = (h - 1, w // 2)
+        for f in ('raytracing', 'partially_occluded'):
+            for walls in (True, False, True, False):
+                rows = [['W' if walls and 5 <= i < h - 5 and 5 <= j < w - 5 and (i + j) % 3 == 0 else 'F' for j in range(w)] for i in range(h)]
+                sh, arr = vis_of(f, rows, pos)
+                sig = {'kind': 'occlusion_large', 'f': f}
+                if pos not in sh:
+                    ctx.fail(f"{f}: the agent's own cell is hidden in a {h}x{w} view", sig)
+                reach = linked(sh, lambda c: rows[c[0]][c[1]] == 'F', pos)
+                if sh - reach:
+                    ctx.fail(f'{f}: cells {sorted(sh - reach)[:4]} visible without a chain of visible transparent cells in a {h}x{w} view', sig)
+                if not walls and len(sh) != h * w:
+                    ctx.fail(f'{f}: an unobstructed {h}x{w} view hides {h * w - len(sh)} cells after a view of the same shape with walls in its interior only was observed in this process', sig)
+                if walls and len(sh) == h * w:
+                    ctx.fail(f'{f}: walls in the interior of a {h}x{w} view hide nothing (after the empty view of the same shape was observed)', sig)
+                arr[...] = False
+        ctx.ev.case(case, nt=True, classes=[f'view{h}x{w}', 'view>1000cells'])
+        return
     # k = 0: empty view; otherwise a sparse deterministic wall pattern (no RNG of our own)
     rows = [['W' if k and ((i * 7 + j * 13 + k * 5) % (5 + k) == 0) else 'F' for j in range(w)] for i in range(h)]
     pos = (h - 1, w // 2)
@@ -292,7 +319,8 @@ CHECKS = [
           rule='all wall/floor patterns of views 1x1,1x3,2x3,3x3,2x5,4x3 (thorough: up to 3x5/5x3/2x7 = 2^15 patterns) at visibility-function level, agent at the bottom centre: '
                'own cell, linkage, flipping any hidden cell, clearing any visible opaque cell, stochastic bounds'),
     Check('large_views', oracle_large, enumerate=enum_large, shards={'quick': 8, 'thorough': 16},
-          rule='views 9x9..15x15 (thorough: up to 21x21, 7x31, 31x7, 15x31) empty and with sparse wall patterns: own cell, linkage, unobstructed view shows everything, stochastic bounds'),
+          rule='views 9x9..15x15 (thorough: up to 21x21, 7x31, 31x7, 15x31) empty and with sparse wall patterns: own cell, linkage, unobstructed view shows everything, stochastic bounds; views of 33x33 and 25x41 cells: walls in the interior only, then empty, alternating in one process',
+          required=['view>1000cells']),
     Check('stochastic_extremes', oracle_extreme, strategy=strat_extreme, examples={'quick': 250, 'thorough': 1000}, shards={'quick': 2, 'thorough': 8},
           rule='stochastic_raytracing driven by an adversarial Generator whose draws are legal extremes (exactly 0.0, the largest double below 1) : shown set between its deterministic bounds',
           required=['mode:low', 'mode:high', 'dark_cells_in_view']),
